@@ -191,8 +191,8 @@ LEVEL_TEXT = {
     "C06": _MKT + "C06 formulas: LockedIsObligation, LockedLeqEscrow, TotalsMatch, WithdrawExact, EscrowOnlyOwnMoves.",
     "C07": _MKT + "C07 formulas: EscrowExplained (every party's escrow equals deposits - withdrawals +/- the ideal per-deal payment formula at every moment, whatever the settlement schedule), BurnExact, EndLegit.",
     "C08": _MKT + "C08 formulas: IdsFresh, NoTwinDeals, PendingIsLive, PublishRules, PublishFunded, ActivationRules, ActivatedOnce.",
-    "C14": _SEC + "C14 formulas: VestShape (the vesting table is sorted, positive, sums to locked_funds), RewardVestsOnSchedule (each ApplyRewards / creation deposit adds exactly the linear 180-step schedule, quantised to the miner's proving-period offset, recomputed in the specification), NoEarlyUnlock (locked funds decrease only by entries whose epoch has passed, or to pay the miner's own penalties), WithdrawBounded (the amount sent equals min(requested, balance - locked - pre-commit deposits - pledge) after full debt repayment, goes to the beneficiary only, is refused for other callers and while early terminations are pending). Beneficiary quota / expiry / who-may-withdraw are decided in the MinerControl suite (exhaustive model + tour + real miner).",
-    "C15": _SEC + "C15 formulas: DebtBlocks (while fee debt is outstanding and cannot be repaid, pre-commit, recovery declaration and withdrawal are refused), BurnMonotone / NoFlowFromBurn (the burnt-funds actor only receives; every penalty transfer is non-negative and none goes to the miner or its owner), ConsensusFaultPaid (burnt + paid to reporter + new fee debt = the consensus-fault penalty; the reporter's share never exceeds what was taken; also with the reporter transfer failing by fault-plan injection), TerminationFeeFloor (every sector whose early termination is processed pays at least 2% of its pledge, and the total never exceeds the cap); that a missed or skipped proof removes the power is decided by PowerIsActive (C02) and the lifecycle model binding.",
+    "C14": _SEC + "C14 formulas: VestShape (the vesting table is sorted, positive, sums to locked_funds), DepositVestsOnSchedule (a fresh miner holds exactly the 180-step schedule of its creation deposit counted from its creation epoch), VestNotOverdue (with the cron running no matured entry stays locked for more than two challenge windows; day-long ticks make entries mature), WithdrawRepaysDebt (what was owed before a successful withdrawal was burnt in that call; the payout never exceeds the request), RewardVestsOnSchedule (each ApplyRewards / creation deposit adds exactly the linear 180-step schedule, quantised to the miner's proving-period offset, recomputed in the specification), NoEarlyUnlock (locked funds decrease only by entries whose epoch has passed, or to pay the miner's own penalties), WithdrawBounded (the amount sent equals min(requested, balance - locked - pre-commit deposits - pledge) after full debt repayment, goes to the beneficiary only, is refused for other callers and while early terminations are pending). Beneficiary quota / expiry / who-may-withdraw are decided in the MinerControl suite (exhaustive model + tour + real miner).",
+    "C15": _SEC + "C15 formulas: ContinuedFaultCharged (for every deadline that closes, the faulty QA power at that moment priced by the protocol's own fee function with the estimates the callback reads -- computed per epoch by the driver -- is at most what left the miner as burn or new fee debt in that tick), DisputePenalised (a successful dispute takes power and money; with the transfer to the disputer failing it charges exactly what its twin execution on a checkpoint charges when the transfer succeeds), DebtOnlyRepaidByBurn (fee debt never just disappears), miners drained to exactly their locked deposit so that penalties become debt, DebtBlocks (while fee debt is outstanding and cannot be repaid, pre-commit, recovery declaration and withdrawal are refused), BurnMonotone / NoFlowFromBurn (the burnt-funds actor only receives; every penalty transfer is non-negative and none goes to the miner or its owner), ConsensusFaultPaid (burnt + paid to reporter + new fee debt = the consensus-fault penalty; the reporter's share never exceeds what was taken; also with the reporter transfer failing by fault-plan injection), TerminationFeeFloor (every sector whose early termination is processed pays at least 2% of its pledge, and the total never exceeds the cap); that a missed or skipped proof removes the power is decided by PowerIsActive (C02) and the lifecycle model binding.",
     "C13": "Bounded exhaustive TLC model checking of spec/MinerControl.tla (all interleavings of the owner, worker and beneficiary hand-over protocols, withdrawals, the cron pending-worker step and epoch advances by owner, proposed owner, beneficiary, nominee and strangers; C13 formulas as action properties over a ghost that re-derives approvals from the accepted calls) + conformance: TLC-exported behaviours and random schedules run on a real miner actor created through the power actor; each recorded step is validated by TLC.",
     "C12": "Bounded exhaustive TLC model checking of spec/Multisig.tla (every interleaving of propose/approve/cancel by signers and outsiders with admin transactions and re-entrant self-calls executed inside the approving step, within small constants) + conformance: TLC-exported behaviours and random schedules run on the real multisig actor (created through init, inner sends really executed) and each recorded step is validated by TLC against the C12 formulas and the spec's transition function.",
     "C16": "Bounded exhaustive TLC model checking of spec/Paych.tla (all voucher/settle/collect interleavings within small constants, C16 formulas as invariants and action properties) + conformance: TLC-exported behaviours and random schedules are executed on the real paych actor and every recorded step is validated by TLC against the same formulas and the spec's transition relation.",
